@@ -341,7 +341,12 @@ func TestMain(m *testing.M) {
 	}
 	env = atenv.Get(atenv.Options{XA: true, Version: version})
 	env.Srv.SetLockWait(3 * time.Second)
-	atenv.UndoConfig("json", "None", true, true) // once: the configuration is not meant to change at run time
+	// once: the configuration is not meant to change at run time; the undo-log compressor follows the shard number
+	compress := "None"
+	if v := os.Getenv("VERIF_SHARD"); v != "" {
+		compress = []string{"None", "Gzip", "Zstd", "Deflate", "Lz4", "Bzip2", "Zip"}[int(v[len(v)-1]-'0')%7]
+	}
+	atenv.UndoConfig("json", compress, true, true)
 	var err error
 	tccOnce.Do(func() { tccProxy, err = tcc.NewTCCServiceProxy(tccAct) })
 	if err != nil {
